@@ -255,6 +255,7 @@ def run(ctx):
         ctx.ob("R16.2", "erase#%d" % i, ok, fw.loc(e), "%s: %s" % (show(e), why))
     _library_keys(ctx, fw)
     _cycle_search_is_linear(ctx)
+    _cycle_search_starts_from_one_node(ctx)
     # emission loops (iterator-style `for` or range-for)
     n_em = 0
     for n in fw.walk():
@@ -402,3 +403,50 @@ def _cycle_search_is_linear(ctx):
            "the recursive call is %sbehind a membership test on a set parameter%s" % ("" if ok_gate else "NOT ", (" `%s`" % which) if which else ""))
     ctx.ob("R16.4", "find_dependency_cycle|no-cycle-return-marks-node-finished", ok_ins, f.loc(),
            "every `return false` %s an insertion into that set" % ("passes" if ok_ins else "does NOT pass"))
+
+
+def _cycle_search_starts_from_one_node(ctx):
+    """R16.5: find_dependency_cycle(path, ...) extends `path` and, when it answers true, leaves in it the cycle that the
+    caller prints and BREAKS (`dependencies[cycle[0]].erase(cycle[1])`).  The answer is a cycle only if the path held
+    nothing but the start library when the search began; left-overs of an earlier, unsuccessful search make it report a
+    cycle that does not exist and erase a real dependency, after which a derived library is initialised before its base.
+    (Seed S8-C16: the vector hoisted out of the loop and cleared only at the end of the body, which `continue` skips.)"""
+    db = ctx.db
+    ctx.rule("R16.5", "the path vector handed to find_dependency_cycle by its (non-recursive) caller is declared inside the loop iteration that makes the call, or is cleared on every way from the loop's test to the call")
+    n = 0
+    for f in db.functions:
+        if not f.file.endswith("interrogate_module.cxx") or f.name.endswith("find_dependency_cycle"):
+            continue
+        for c in f.walk():
+            if not (c.get("k") == "call" and callee_short(c) == "find_dependency_cycle" and c.get("a")):
+                continue
+            n += 1
+            r = local_ref(c["a"][0])
+            inst = "%s|find_dependency_cycle(%s)|fresh-path" % (f.name, (r or {}).get("n", "?"))
+            if r is None:
+                ctx.ob("R16.5", inst, False, f.loc(c), "the path argument is not a local vector")
+                continue
+            d = r["d"]
+            loops = list(enclosing_loops(f, c))
+            decl = None
+            for y in f.walk():
+                if y.get("k") == "decls" and any(dd.get("d") == d for dd in y["d"]):
+                    decl = y
+            if not loops:
+                ctx.ob("R16.5", inst, decl is not None, f.loc(c), "called once, outside any loop")
+                continue
+            lp = loops[0]
+            if decl is not None and any(z is decl for z in walk(lp.get("body") or {})):
+                ctx.ob("R16.5", inst, True, f.loc(c), "`%s` is declared inside the loop body: a new, empty vector for every start library" % r.get("n"))
+                continue
+            head = lp.get("c")
+            if head is None and lp.get("k") == "forrange":
+                hid = [h for h in lp.get("hid", []) if isinstance(h, dict) and f.cfg.locate(h) is not None]
+                head = hid[3] if len(hid) > 3 else (hid[-1] if hid else None)
+            clears = [y for y in walk(lp.get("body") or {}) if (y.get("k") == "call" and callee_short(y) == "clear" and "this" in y and (local_ref(y["this"]) or {}).get("d") == d)
+                      or (assigned_target(y) and (local_ref(assigned_target(y)[0]) or {}).get("d") == d)]
+            stale = head is None or G.reaches_avoiding(f, head, clears, c)
+            ctx.ob("R16.5", inst, not stale, f.loc(c),
+                   "`%s` outlives the iteration and is emptied on every way to the call" % r.get("n") if not stale else
+                   "`%s` outlives the iteration and can reach the call still holding the previous search's path" % r.get("n"))
+    ctx.floor("R16.5", "callers of find_dependency_cycle", n, 1)
